@@ -33,6 +33,8 @@ def adapt(run):
             out.append(tick)
         elif k == "cons_done" and not sync:
             out.append({"ev": "ConsumerDone"})
+        elif k == "cons_fail":
+            out.append({"ev": "ConsumerFail"})
         elif k == "release" and ev["site"].endswith(".cb"):
             # releases before the delivery of the same batch belong to the Tick (pre-fix order)
             if rel is None:
@@ -92,7 +94,7 @@ def attribute(run, trace, idx):
 def consts_of(c):
     return dict(NE=c["max_elems"], Interval=amod.seconds(c["interval"]), SyncCons=c["cons"][0] == "sync", MaxTime=100000000,
                 Unique="none" if c["kind"] == "timed_window" else c.get("keep", "first"), Mod=c.get("mod", 2),
-                ReleaseEarly=False)
+                ReleaseEarly=False, Faults=bool(c.get("faults")))
 
 
 def run(tier, seed, mutant=None, only_validate=False):
@@ -107,10 +109,10 @@ def run(tier, seed, mutant=None, only_validate=False):
                     for interval in ((2,) if tier == "quick" else (1, 2, 3)):
                         r, rec = amod.mc(res, work, "AsyncTimedWindow", "%s_i%d_sync%d" % (uniq, interval, sync),
                                          dict(NE=ne, Interval=interval, SyncCons=sync, MaxTime=3 * interval, Unique=uniq, Mod=2,
-                                              ReleaseEarly=False), INVS, workers=16)
+                                              ReleaseEarly=False, Faults=not sync), INVS, workers=16)
                         amod.spec_violation(res, r, rec, INV_PROP, "C08", "timed_window")
             r, rec = amod.mc(res, work, "AsyncTimedWindow", "legacy_CbSafe",
-                             dict(NE=2, Interval=2, SyncCons=False, MaxTime=4, Unique="none", Mod=2, ReleaseEarly=True), ["CbSafe"])
+                             dict(NE=2, Interval=2, SyncCons=False, MaxTime=4, Unique="none", Mod=2, ReleaseEarly=True, Faults=False), ["CbSafe"])
             rec["expected_violation"] = "CbSafe"
             rec["ok"] = r.violated == "CbSafe"
             if r.violated != "CbSafe":
@@ -122,6 +124,7 @@ def run(tier, seed, mutant=None, only_validate=False):
             for c in ("future", "sync"):
                 cfgs.append({"kind": "timed_window_unique", "interval": 2, "keep": keep, "mod": 2, "cons": [c], "max_elems": ne})
         cfgs += [{"kind": "timed_window", "interval": "2d", "cons": ["sync"], "max_elems": 3}]
+        cfgs += [{"kind": "timed_window", "interval": 2, "cons": ["future"], "max_elems": ne, "faults": True}]
         cfgs += [{"kind": "timed_window", "interval": 2, "cons": ["future"], "max_elems": ne, "falsy": {"none": 2, "zero": 3}}]
         if tier != "quick":
             cfgs += [{"kind": "timed_window", "interval": 3, "cons": ["future"], "max_elems": ne},
